@@ -1,6 +1,6 @@
 (* Extraction of the Num-polymorphic coordinate model to OCaml (ExtrOcamlBasic
    only; the float record is supplied by the hand-written driver). *)
 From Coq Require Import ZArith List Extraction ExtrOcamlBasic.
-From Sky Require Import Num M_Coords.
+From Sky Require Import Num M_Coords M_CoordsPdf.
 Extraction "model.ml" angsep sep_hav signalpdf_psi tdm_psi rot_sv rot_matrix rot_cosa
-  azi2ra ra2azi hor2equ psi2decra p2d_xyz uvec dot rses_ap ap_separation ap_position_angle ap_offset_by Z.of_nat Z.to_nat.
+  azi2ra ra2azi hor2equ psi2decra p2d_xyz uvec dot rses_ap ap_separation ap_position_angle ap_offset_by signalpdf_pd Z.of_nat Z.to_nat.
